@@ -221,6 +221,42 @@ def l3_superposition(chk, ctx, rng, n, tier):
         if not (err <= 1e-10 * scale):
             chk.fail(key, 'F(a*phi1+b*phi2, a*th1+b*th2) differs from a*F(phi1,th1)+b*F(phi2,th2) by %.3g (scale %.3g)' % (err, scale), inp)
 
+def l3_sign(chk, ctx, rng, n):
+    """linearity for densities of ANY sign (members of the superposition family with theta0 = 0): F(-phi) = -F(phi), and
+    F(phi with the lines through some entries negated) + F(the complementary part) = F(phi); every driver, constant
+    (pre-computed-coefficient kernels) and time-varying, each population's axis"""
+    dadi = ctx['dadi']; I = dadi.Integration
+    for it in range(n):
+        d = 1 + it % 5
+        varying = bool((it // 5) % 2)
+        pts = {1: 16, 2: 10, 3: 8, 4: 6, 5: 5}[d] + int(rng.integers(0, 2))
+        xx = dadi.Numerics.default_grid(pts)
+        phi = gen.density(rng, [pts] * d)
+        nus, ms, gammas, hs, th, fr, nm = regime_model(rng, d, 'moderate', False, xx)
+        T = float(rng.uniform(0.005, 0.03))
+        def run(p):
+            kw = kwargs_for(d, nus, ms, gammas, hs, 0.0, fr, nm)
+            if varying:
+                kw['nu' if d == 1 else 'nu1'] = (lambda t, v=nus[0]: v * (1 + 0.3 * math.sin(40 * t)))
+            return integrate(dadi, d, p, xx, T, **kw)
+        # a part of the density that is non-positive along whole lines of one axis: the entries of a random set of lines, negated
+        ax = int(rng.integers(d))
+        sel = rng.random([pts if l != ax else 1 for l in range(d)]) < 0.5
+        part = np.where(np.broadcast_to(sel, phi.shape), -phi, 0.0)
+        key = 'superposition:%dD:varying=%s:sign' % (d, varying)
+        chk.l3((key, ax, tuple(fr)))
+        inp = dict(d=d, pts=pts, nus=nus, ms=str(ms), gammas=gammas, hs=hs, frozen=fr, nomut=nm, T=T, varying=varying, axis=ax, phi=phi, lines=sel)
+        try:
+            r = run(phi); rn = run(-phi); rp = run(part); rc = run(phi + part)
+        except Exception as e:
+            chk.fail(key + ':raises:' + type(e).__name__, 'integrator raises %r on a density with negative entries and theta0 = 0' % (e,), inp); continue
+        scale = max(float(np.max(np.abs(r))), 1e-300)
+        e1 = float(np.max(np.abs(rn + r))); e2 = float(np.max(np.abs(rc - (r + rp))))
+        if not (e1 <= 1e-10 * scale):
+            chk.fail(key + ':negated', 'F(-phi, 0) differs from -F(phi, 0) by %.3g (scale %.3g)' % (e1, scale), inp)
+        elif not (e2 <= 1e-10 * scale):
+            chk.fail(key + ':lines', 'F(phi + part, 0) differs from F(phi, 0) + F(part, 0) by %.3g (scale %.3g) for a part that is non-positive along whole lines of axis %d' % (e2, scale, ax), inp)
+
 def l3_rescale(chk, ctx, rng, n, tier):
     """(nu, T, m, gamma, theta0) -> (c nu, c T, m/c, gamma/c, theta0/c) on one_pop..five_pops: constant parameters (pre-computed
     tridiagonal systems in 1-3 populations) and time-varying ones (systems built on the fly by the C kernels, as in every 4/5
@@ -548,6 +584,7 @@ def run(chk, ctx):
     k_sweep(chk, ctx, rng, 15 if q else 45, tier)
     k_program(chk, ctx, common.Rng(ctx['seed'], 'C03-program'), 1 if q else 5, tier)     # own stream: the cases below stay what they were
     l3_superposition(chk, ctx, rng, 60 if q else 360, tier)
+    l3_sign(chk, ctx, common.Rng(ctx['seed'], 'C03-sign'), 20 if q else 100)
     l3_rescale(chk, ctx, rng, 60 if q else 360, tier)
     l3_dt_wiring(chk, ctx, rng, 40 if q else 200)
     l3_schedule(chk, ctx, common.Rng(ctx['seed'], 'C03-schedule'), 30 if q else 150)
